@@ -421,27 +421,30 @@ class AudioThread(threading.Thread):
     # From now on, it's multi-thread. Let the force be with them.
     st = self.stream._stream
 
-    for chunk in chunks(self.audio,
-                        size=self.chunk_size*self.nchannels,
-                        dfmt=self.dfmt,
-                        padval=0): # An int zero can be packed in any format
-      #Below is a faster way to call:
-      #  self.stream.write(chunk, self.chunk_size)
-      self.write_stream(st, chunk, self.chunk_size, False)
-      if self.halting or not self.go.is_set():
-        self.stream.stop_stream()
-        if self.halting:
-          break
-        self.go.wait()
-        if self.halting: # Stopped while paused
-          break
-        self.stream.start_stream()
+    try:
+      for chunk in chunks(self.audio,
+                          size=self.chunk_size*self.nchannels,
+                          dfmt=self.dfmt,
+                          padval=0): # An int zero can be packed in any format
+        #Below is a faster way to call:
+        #  self.stream.write(chunk, self.chunk_size)
+        self.write_stream(st, chunk, self.chunk_size, False)
+        if self.halting or not self.go.is_set():
+          self.stream.stop_stream()
+          if self.halting:
+            break
+          self.go.wait()
+          if self.halting: # Stopped while paused
+            break
+          self.stream.start_stream()
 
-    # Finished playing! Destructor-like step: let's close the thread
-    with self.lock:
-      if self in self.device_manager._threads: # If not already closed
-        self.stream.close()
-        self.device_manager.thread_finished(self)
+    # Finished playing (or the audio/backend raised)! Destructor-like step:
+    # let's close the thread, else AudioIO.close would wait for it forever
+    finally:
+      with self.lock:
+        if self in self.device_manager._threads: # If not already closed
+          self.stream.close()
+          self.device_manager.thread_finished(self)
 
   def stop(self):
     """ Stops the playing thread and close """
